@@ -19,6 +19,7 @@ func checkC15(p *Program, tier string) *Result {
 	ruleFreshDecode(p, r, false)
 	ruleAtomicReload(p, r)
 	ruleGoField(p, r)
+	ruleBuildKeepsConfig(p, r)
 	r.floor("R-GOFIELD", 4)
 	r.Trusted = append(r.Trusted, "prometheus metric methods and the listed library receiver types are safe for concurrent use (threadSafeLib table in rule_race.go)", "the confined-type table in rule_race.go (checked by R-CONFINED)")
 	r.Assumptions = append(r.Assumptions, "shutdown interleavings and races inside third-party code are not analysed")
@@ -30,6 +31,8 @@ func checkC16(p *Program, tier string) *Result {
 	r.Explanation = "R-FRESHDECODE: in every function decoding a document into a *config.ServerConfig (YAML and JSON loaders) the destination is a local that is zero when the decoder sees it; exactly that value is published by one blocking send on the success edges of the decode and of the minimum-content checks, every nil-error return passes the send, a failed load publishes nothing. Consumer: the update loop assigns providers and filters from builder results for each published value and the builder allocates its list anew; nothing is appended to state kept across updates. Hence the published value is a function of the document bytes alone."
 	ruleFreshDecode(p, r, true)
 	ruleConsumerReplaces(p, r)
+	ruleAtomicReload(p, r)
+	ruleBuildKeepsConfig(p, r)
 	r.Trusted = append(r.Trusted, "yaml.v3 / encoding/json populate only the destination they are given", "fsnotify event delivery")
 	r.Assumptions = append(r.Assumptions, "the watcher calls the same Load (who-may-call: Load is the only caller of Unmarshal in the loaders)")
 	return r
